@@ -696,7 +696,7 @@ def date_bin(stride, source, origin):
             d = n = origin
             while True:
                 n += stride
-                if n >= source:
+                if n > source:
                     return d
                 d = n
         else:
